@@ -393,18 +393,39 @@ func checkC16(p *Prog, r *Report) {
 	}
 	// DeepEqual implies Equal
 	if f := p.Fn("candidateBase.DeepEqual"); f != nil {
-		ok := false
-		walkBody(f, func(n ast.Node) bool {
-			if rs, ok2 := n.(*ast.ReturnStmt); ok2 && len(rs.Results) == 1 {
-				conj := conjuncts(rs.Results[0])
-				for _, c := range conj {
-					if ce, ok3 := unparen(c).(*ast.CallExpr); ok3 && p.CalleeName(ce) == "ice.candidateBase.Equal" {
-						ok = true
-					}
+		// every result that can be true is either a conjunction containing Equal(other) or is returned where
+		// Equal(other) is already known to hold ("if !c.Equal(other) { return false }; return ...")
+		ok, n := true, 0
+		isEqualCall := func(e ast.Expr) bool {
+			ce, isC := unparen(e).(*ast.CallExpr)
+			return isC && p.CalleeName(ce) == "ice.candidateBase.Equal"
+		}
+		walkBody(f, func(x ast.Node) bool {
+			rs, ok2 := x.(*ast.ReturnStmt)
+			if !ok2 || len(rs.Results) != 1 {
+				return true
+			}
+			if cv, isC := p.ConstVal(rs.Results[0]); isC && cv == "false" {
+				return true
+			}
+			n++
+			covered := false
+			for _, c := range conjuncts(rs.Results[0]) {
+				if isEqualCall(c) {
+					covered = true
 				}
+			}
+			if !covered {
+				covered = factListHas(p.DominatingFactList(f, rs), func(ft Fact) bool {
+					return ft.Op == "truth" && ft.Val && isEqualCall(ft.X)
+				})
+			}
+			if !covered {
+				ok = false
 			}
 			return true
 		})
+		ok = ok && n > 0
 		r.Check(ok, "DeepEqual implies Equal", p.Pos(f.Body.Pos()), "DeepEqual's result is a conjunction containing Equal(other)", "DeepEqual is not of the form Equal(other) && ...: it no longer implies Equal")
 	}
 
@@ -890,6 +911,21 @@ func checkC16(p *Prog, r *Report) {
 									k = "transformed (" + stripVarLines(p.Canon(other)) + ")"
 								}
 								kinds[k] = append(kinds[k], f.Name+"@"+p.Pos(x.Pos()))
+							}
+						}
+					}
+				case *ast.SwitchStmt:
+					// switch key { case "tcptype": ... } is the same exact comparison
+					if x.Tag != nil {
+						for _, cl := range x.Body.List {
+							for _, e := range cl.(*ast.CaseClause).List {
+								if v, ok := p.ConstVal(e); ok && v == `"tcptype"` {
+									k := "exact"
+									if _, isCall := unparen(x.Tag).(*ast.CallExpr); isCall {
+										k = "transformed (" + stripVarLines(p.Canon(x.Tag)) + ")"
+									}
+									kinds[k] = append(kinds[k], f.Name+"@"+p.Pos(e.Pos()))
+								}
 							}
 						}
 					}
